@@ -6,50 +6,78 @@ From Coq Require Import String.
 From MJ Require Import Common.Base C15.Vocab C15.Model C15.Spec.
 
 (* ---- the concrete universe (mirrored by c15.rs::{src_text, expr_text, loader_fn, registry variants}) ---- *)
-(* a source x: kind = x mod 8, payload p = x / 8
+(* a source x: kind = x mod 16, payload p = x / 16;  q = the context variable of the render call
      kind 1      does not compile                         "{{ p }}{% bad"            (expression: "p +")
-     kind 2      fails while rendering                    "{{ p }}{% for .. %}{% set y %}a{{ 1 // 0 }}.."   ("1 // 0")
+     kind 2      fails while rendering, after output      "{{ p }}{% for .. %}{% set y %}a{{ 1 // 0 }}.."   ("1 // 0")
      kind 3      "{{ V|F }}"                 F = filter name (p mod 2), V = p / 2
      kind 4      "{{ 1 if V is T else 0 }}"  T = test name (p mod 2)
      kind 5      "{{ G(V)|length }}"         G = global function name (p mod 2)
      kind 6      "{% for i in [1] %}\n{{ p }}{% endfor %}"   renders p, preceded by a newline unless trim_blocks
      kind 7      "{% if true %}{{ p }}{% endif %}\n"         renders p, followed by a newline iff keep_trailing_newline and not trim_blocks
+     kind 8      "{{ (site|string)|length }}"   the global container `site` (global name 2) printed
+     kind 9      "{{ (site|tojson)|length }}"   ... serialized to JSON: fails unless every key is a string
+     kind 10     "{{ kw(q, p, opt=1) }}"        user function (global name 3) taking Kwargs: reads `opt` iff q + w is odd,
+                                                then assert_all_used
+     kind 11     "{{ q|kf(p, opt=1) }}"         the same as a filter (filter name 2)
+     kind 12     "{{ (data|tojson)|length }}"   a container of the context with a tuple key: always fails
+     kind 13     "{{ (data|string)|length }}"
+     kind 14     "{{ 1 if q is kt(opt=1) else 0 }}"   the same as a test (test name 2)
      otherwise   renders p
    configuration c: bit 0 = trim_blocks, bit 1 = keep_trailing_newline.
-   registry names: 0 = a custom name (absent in a new environment), 1 = a built-in (abs / odd / range);
+   registry names: 0 = a custom name (absent in a new environment), 1 = a built-in (abs / odd / range), 2, 3 as above;
    function identity w: 0 = the built-in, w >= 1 = a custom closure: filter v+w, test (v+w) odd,
-   function returning a list of length v+w.
+   function returning a list of length v+w; `site` w = 1: a map with a tuple key inside, 2: a JSON-able map,
+   otherwise a list holding a map with a none key.
    A compiled template is (mode, source): mode c >= 0 a template compiled under configuration c,
-   -1 an expression, -2 a template parsed for undeclared_variables (result: how many). *)
+   -1 an expression, -2 a template parsed for undeclared_variables (result: how many).
+   A render call rc: context q = rc mod 4; (rc / 4) odd: the output goes to a writer that fails; (rc / 8) odd:
+   on a thread of its own (no effect on the result). *)
 Definition ctmpl := (Z * Z)%type.
 Definition mode_code (m : cmode) : Z := match m with MTemplate c => c mod 4 | MExpr => -1 | MAnalysis => -2 end.
 Definition c_compile (m : cmode) (x : src) : cres ctmpl :=
-  if x mod 8 =? 1 then CErr E_SyntaxError else COk (mode_code m, x).
-Definition c_base (t : Z) (regs : rk -> Z -> option Z) : obs :=
-  let k := t mod 8 in
-  let p := t / 8 in
+  if x mod 16 =? 1 then CErr E_SyntaxError else COk (mode_code m, x).
+Definition c_kwargs (q p : Z) (r : option Z) (missing : Z) (ok : Z) : obs :=
+  match r with
+  | None => o_err missing
+  | Some w => if (q + w) mod 2 =? 1 then (0, ok) else o_err E_TooManyArguments
+  end.
+Definition c_base (q t : Z) (regs : rk -> Z -> option Z) : obs :=
+  let k := t mod 16 in
+  let p := t / 16 in
   if k =? 2 then o_err E_InvalidOperation
   else if k =? 3 then match regs RF (p mod 2) with None => o_err E_UnknownFilter | Some w => (0, p / 2 + w) end
   else if k =? 4 then match regs RT (p mod 2) with None => o_err E_UnknownTest | Some w => (0, (p / 2 + w) mod 2) end
   else if k =? 5 then match regs RG (p mod 2) with None => o_err E_UnknownFunction | Some w => (0, p / 2 + w) end
+  else if k =? 8 then match regs RG 2 with None => (0, 0) | Some w => (0, if w =? 1 then 44 else if w =? 2 then 36 else 14) end
+  else if k =? 9 then match regs RG 2 with None => (0, 4) | Some w => if w =? 2 then (0, 36) else o_err E_InvalidOperation end
+  else if k =? 10 then c_kwargs q p (regs RG 3) E_UnknownFunction (p + 1)
+  else if k =? 11 then c_kwargs q p (regs RF 2) E_UnknownFilter (p + 1)
+  else if k =? 12 then o_err E_InvalidOperation
+  else if k =? 13 then (0, 23)
+  else if k =? 14 then c_kwargs q p (regs RT 2) E_UnknownTest 1
   else (0, p).
-Definition c_render (mt : ctmpl) (regs : rk -> Z -> option Z) : obs :=
+Definition c_render (rc : Z) (mt : ctmpl) (regs : rk -> Z -> option Z) : obs :=
   let (m, t) := mt in
-  let k := t mod 8 in
-  if m =? -2 then (0, if k =? 5 then 1 else 0)
-  else if m =? -1 then c_base t regs
+  let k := t mod 16 in
+  let q := rc mod 4 in
+  if m =? -2 then (0, if k =? 10 then 2 else if (k =? 5) || ((8 <=? k) && (k <=? 14)) then 1 else 0)
+  else if m =? -1 then c_base q t regs
   else
     let trim := m mod 2 =? 1 in
     let keep := 2 <=? m in
     let nl := ((k =? 6) && negb trim) || ((k =? 7) && keep && negb trim) in
-    let r := c_base t regs in
-    if nl && (fst r =? 0) then (5, snd r * 4 + 1) else r.
+    let r := c_base q t regs in
+    let r := if nl && (fst r =? 0) then (5, snd r * 4 + 1) else r in
+    if (rc / 4) mod 2 =? 1 then
+      (* every write fails: the render ends with WriteFailure unless it fails before its first output *)
+      (if (fst r =? 1) && negb (k =? 2) then r else o_err E_WriteFailure)
+    else r.
 (* loader closure l at time now: the source it returns changes with time *)
 Definition c_loader (l now n : Z) : lres :=
   let x := (l * 5 + now * 3 + n * 7) mod 16 in
   if x <? 3 then LMissing
   else if x =? 3 then LFail E_InvalidOperation
-  else LFound ((x - 4) mod 8 + 8 * (n mod 2 + 2 * (1000 + 10 * now + l))).
+  else LFound ((x - 4) mod 12 + 16 * (n mod 2 + 2 * (1000 + 10 * now + l))).
 Definition c_builtin (k : rk) : reg := [(1, 0)].
 Definition c_builtin_has (k : rk) (nm : Z) : option Z := if nm =? 1 then Some 0 else None.
 
@@ -64,9 +92,9 @@ Definition decode (op a b now : Z) : option wop :=
   | 4 => Some (WStore (ORemove a))
   | 5 => Some (WStore OClear)
   | 6 => Some (WStore (OSetLoader a))
-  | 8 => Some (WStore (OGet a now))
-  | 9 => Some (WRegAdd (rk_of (a / 2)) (a mod 2) b)
-  | 10 => Some (WRegRemove (rk_of (a / 2)) (a mod 2))
+  | 8 => Some (WRender b a now)
+  | 9 => Some (WRegAdd (rk_of (a / 4)) (a mod 4) b)
+  | 10 => Some (WRegRemove (rk_of (a / 4)) (a mod 4))
   | 11 | 12 => Some WClone
   | 13 => Some WSwap
   | 14 => Some (WAdhoc 0 a b)
@@ -103,7 +131,7 @@ Definition flat_obs (l : list obs) : list Z := flat_map (fun o => [fst o; snd o]
 Definition m_world := world ctmpl.
 Definition m_step (old : bool) := world_step ctmpl c_compile c_loader old c_render.
 Definition m_obs_env (h : heap) (e : env ctmpl) (now : Z) : list Z :=
-  flat_obs (map (fun n => observe ctmpl c_compile c_loader c_render h e n now) universe).
+  flat_obs (map (fun n => observe ctmpl c_compile c_loader c_render h e 0 n now) universe).
 Definition m_report (w : m_world) (now : Z) : list Z :=
   m_obs_env (hp _ w) (cur _ w) now ++
   match other _ w with
@@ -115,7 +143,7 @@ Definition m_report (w : m_world) (now : Z) : list Z :=
 Definition s_world := sworld.
 Definition s_step := sworld_step ctmpl c_compile c_loader c_render.
 Definition s_obs_env (e : senv) (now : Z) : list Z :=
-  flat_obs (map (fun n => s_observe ctmpl c_compile c_loader c_render e n now) universe).
+  flat_obs (map (fun n => s_observe ctmpl c_compile c_loader c_render e 0 n now) universe).
 Definition s_report (w : s_world) (now : Z) : list Z :=
   s_obs_env (scur w) now ++
   match sother w with
@@ -128,7 +156,7 @@ Definition optz (o : option Z) : Z := match o with Some z => z | None => -1 end.
 Definition s_contents_env (e : senv) (now : Z) : list Z :=
   map (fun n => optz (option_map snd (tpl (sc e) n))) universe ++
   map (fun n => optz (option_map fst (tpl (sc e) n))) universe ++ [optz (cur_loader (sc e)); now] ++
-  flat_map (fun k => [optz (sr e k 0); optz (sr e k 1)]) [RF; RT; RG] ++ [cur_cfg (sc e)].
+  flat_map (fun k => [optz (sr e k 0); optz (sr e k 1); optz (sr e k 2); optz (sr e k 3)]) [RF; RT; RG] ++ [cur_cfg (sc e)].
 Definition s_contents (w : s_world) (now : Z) : list Z :=
   s_contents_env (scur w) now ++
   match sother w with
